@@ -75,6 +75,29 @@ def crash_point(p, label):
         hook(p, label)
 
 
+def flush_file(p, h):
+    """flush of a buffered write handle (explicit flush, close, end of a `with` block): everything pending reaches the file, or the
+    flush fails (fault model) with an arbitrary prefix on disk"""
+    if getattr(h, "pending", None) is None:
+        return
+    fs = fs_of(p)
+    pending, base = h.pending, h.base
+    k = p.fresh("flushed", I)
+    p.assume(z3.And(k >= 0, k <= z3.Length(pending)))
+    fs.data = z3.Store(fs.data, h.path, z3.Concat(base, z3.SubSeq(pending, 0, k)))
+    crash_point(p, "flush-partial")
+    if p.ghost.get("fs_faults"):
+        b = p.fresh("fault_flush", B)
+        if p.branch(b):
+            h.pending = None
+            effect(p, "write-partial", h.path)
+            p.raise_("OSError")
+    fs.data = z3.Store(fs.data, h.path, z3.Concat(base, pending))
+    h.base, h.pending = None, None
+    effect(p, "write", h.path)
+    crash_point(p, "flushed")
+
+
 def install(reg):
     E = reg.externals
     M = reg.methods
@@ -361,20 +384,16 @@ def install(reg):
         if t is None:
             raise Unsupported("write of non-bytes")
         maybe_oserror(p, "write")
-        # crash / short write: any prefix may be on disk
-        k = p.fresh("short_write", I)
-        p.assume(z3.And(k >= 0, k <= z3.Length(t)))
-        cur = z3.Select(fs.data, h.path)
-        saved = fs.data
-        fs.data = z3.Store(saved, h.path, z3.Concat(cur, z3.SubSeq(t, 0, k)))
-        crash_point(p, "write-partial")
-        if p.ghost.get("fs_faults"):
-            b = p.fresh("fault_write_short", B)
-            if p.branch(b):
-                effect(p, "write-partial", h.path)
-                p.raise_("OSError")
-        fs.data = z3.Store(saved, h.path, z3.Concat(cur, t))
-        effect(p, "write", h.path)
+        # buffered writer (open / os.fdopen in binary write mode): the bytes go to the handle's buffer; any prefix of what is
+        # pending may already be on disk, all of it only after flush / close
+        if h.pending is None:
+            h.base, h.pending = z3.Select(fs.data, h.path), z3.Empty(BYTES)
+        h.pending = z3.Concat(h.pending, t)
+        k = p.fresh("buffered_on_disk", I)
+        p.assume(z3.And(k >= 0, k <= z3.Length(h.pending)))
+        fs.data = z3.Store(fs.data, h.path, z3.Concat(h.base, z3.SubSeq(h.pending, 0, k)))
+        effect(p, "write-partial", h.path)
+        crash_point(p, "write-buffered")
         return VInt(z3.Length(t))
     M[("HFile", "write")] = f_write
 
@@ -977,6 +996,282 @@ def install_more(reg):
         t = p.heap[recv.rid].fields["pathstr"].t
         return p.alloc(HObj("Path", {"pathstr": VStr(p.engine.uf("dirname", S, S)(t))}))
     M[("obj:Path", "@parent")] = path_parent
+
+    def path_name(p, recv, args, kw):
+        t = p.heap[recv.rid].fields["pathstr"].t
+        p.engine.assumption("pathlib.Path(p).name read as os.path.basename(p) (they differ only for a trailing separator)")
+        return VStr(p.engine.uf("basename", S, S)(t))
+    M[("obj:Path", "@name")] = path_name
+
+    def _path_kind(p, recv):
+        fs = fs_of(p)
+        return kind_at(p, fs.kind, p.heap[recv.rid].fields["pathstr"].t)
+
+    M[("obj:Path", "is_dir")] = lambda p, recv, args, kw: VBool(_path_kind(p, recv) == DIR)
+    M[("obj:Path", "is_file")] = lambda p, recv, args, kw: VBool(_path_kind(p, recv) == FILE)
+    M[("obj:Path", "exists")] = lambda p, recv, args, kw: VBool(_path_kind(p, recv) != ABSENT)
+
+    def path_truediv(p, recv, args, kw):
+        t = p.heap[recv.rid].fields["pathstr"].t
+        return p.alloc(HObj("Path", {"pathstr": VStr(p.engine.uf("pathjoin", S, S, S)(t, str_term(p, args[0])))}))
+    M[("obj:Path", "__truediv__")] = path_truediv
+
+    def os_listdir(p, args, kw):
+        """the entry names of a directory as an opaque list; membership of a name is decided by the ghost file system"""
+        t = str_term(p, args[0])
+        fs = fs_of(p)
+        if p.branch(kind_at(p, fs.kind, t) != DIR):
+            p.raise_("NotADirectoryError" if p.branch(kind_at(p, fs.kind, t) == FILE) else "FileNotFoundError")
+        h = HList(seq=p.engine.uf("listdir", S, fs.kind.sort(), PVSEQ)(t, fs.kind))
+        h.tag["elem"] = "str"
+        h.tag["listdir_of"] = t
+        p.engine.assumption("os.listdir(d): a name n (one path component) is listed iff join(d, n) exists")
+        return p.alloc(h)
+    E["os.listdir"] = os_listdir
+
+    # ---- directory walk: spec functions defined by the recursion over directory entries (ground unfolding instances) ----------
+    def _entries_term(p, t):
+        fs = fs_of(p)
+        return p.engine.uf("iterdir", S, fs.kind.sort(), PVSEQ)(t, fs.kind)
+
+    def path_iterdir(p, recv, args, kw):
+        """Path.iterdir(): the entries of the directory as path strings join(dir, name), each entry once, in an arbitrary order
+        (an opaque sequence); the children are handed on as strings"""
+        t = p.heap[recv.rid].fields["pathstr"].t
+        h = HList(seq=_entries_term(p, t))
+        h.tag["elem"] = "str"
+        X = h.seq
+        h.tag["elem_fact"] = lambda i, X=X: PV.is_PStr(X[i])
+        p.engine.assumption("Path.iterdir(): every entry of the directory exactly once, as a path below it; the file system does not "
+                            "change during the walk and is a finite tree (no symlink cycles)")
+        return p.alloc(h)
+    M[("obj:Path", "iterdir")] = path_iterdir
+
+    def s_entries(p, path):
+        h = HList(seq=_entries_term(p, str_term(p, path)))
+        h.tag["elem"] = "str"
+        return p.alloc(h)
+    SF["entries"] = s_entries
+
+    def _under(p):
+        fs = fs_of(p)
+        return p.engine.uf("file_under", S, S, fs.kind.sort(), B), p.engine.uf("file_under_any", PVSEQ, I, S, fs.kind.sort(), B), fs
+
+    def s_file_under(p, path, f):
+        """f is a regular file at or below path (the set of files a walk of path must report)"""
+        u, _, fs = _under(p)
+        return VBool(u(str_term(p, path), str_term(p, f), fs.kind))
+    SF["file_under"] = s_file_under
+
+    def s_file_under_any(p, E, i, f):
+        """f is a regular file at or below one of the first i entries of E"""
+        _, ua, fs = _under(p)
+        X, ft = p.list_seq(p.deref(E)), str_term(p, f)
+        p.assume(z3.Not(ua(X, z3.IntVal(0), ft, fs.kind)))          # definition: nothing lies under the first 0 entries
+        return VBool(ua(X, p.as_int(i), ft, fs.kind))
+    SF["file_under_any"] = s_file_under_any
+
+    def s_under_unfold(p, path, f):
+        """ground instance of the definition of file_under at `path`"""
+        u, ua, fs = _under(p)
+        t, ft = str_term(p, path), str_term(p, f)
+        k = kind_at(p, fs.kind, t)
+        E = _entries_term(p, t)
+        return VBool(z3.And(z3.Implies(k == FILE, u(t, ft, fs.kind) == (ft == t)),
+                            z3.Implies(k == DIR, u(t, ft, fs.kind) == ua(E, z3.Length(E), ft, fs.kind)),
+                            z3.Implies(k == ABSENT, z3.Not(u(t, ft, fs.kind))),
+                            z3.Not(ua(E, z3.IntVal(0), ft, fs.kind))))
+    SF["under_unfold"] = s_under_unfold
+
+    def s_under_step(p, E, i, f):
+        """ground instance: the first i+1 entries cover what the first i cover plus what lies under entry i"""
+        u, ua, fs = _under(p)
+        X, it, ft = p.list_seq(p.deref(E)), p.as_int(i), str_term(p, f)
+        return VBool(z3.And(z3.Not(ua(X, z3.IntVal(0), ft, fs.kind)),
+                            z3.Implies(z3.And(it >= 0, it < z3.Length(X)),
+                                       ua(X, it + 1, ft, fs.kind) == z3.Or(ua(X, it, ft, fs.kind), u(PV.sval(X[it]), ft, fs.kind)))))
+    SF["under_step"] = s_under_step
+
+    def _sizes(p):
+        fs = fs_of(p)
+        return (p.engine.uf("size_under", S, fs.kind.sort(), fs.data.sort(), I),
+                p.engine.uf("size_under_first", PVSEQ, I, fs.kind.sort(), fs.data.sort(), I), fs)
+
+    def s_size_under(p, path):
+        """total size of the regular files at or below path"""
+        su, _, fs = _sizes(p)
+        return VInt(su(str_term(p, path), fs.kind, fs.data))
+    SF["size_under"] = s_size_under
+
+    def s_size_under_first(p, E, i):
+        _, sp, fs = _sizes(p)
+        X = p.list_seq(p.deref(E))
+        p.assume(sp(X, z3.IntVal(0), fs.kind, fs.data) == 0)
+        return VInt(sp(X, p.as_int(i), fs.kind, fs.data))
+    SF["size_under_first"] = s_size_under_first
+
+    def s_size_unfold(p, path):
+        su, sp, fs = _sizes(p)
+        t = str_term(p, path)
+        k = kind_at(p, fs.kind, t)
+        E = _entries_term(p, t)
+        return VBool(z3.And(z3.Implies(k == FILE, su(t, fs.kind, fs.data) == z3.Length(z3.Select(fs.data, t))),
+                            z3.Implies(k == DIR, su(t, fs.kind, fs.data) == sp(E, z3.Length(E), fs.kind, fs.data)),
+                            z3.Implies(k == ABSENT, su(t, fs.kind, fs.data) == 0),
+                            sp(E, z3.IntVal(0), fs.kind, fs.data) == 0))
+    SF["size_unfold"] = s_size_unfold
+
+    def s_size_step(p, E, i):
+        su, sp, fs = _sizes(p)
+        X, it = p.list_seq(p.deref(E)), p.as_int(i)
+        return VBool(z3.And(sp(X, z3.IntVal(0), fs.kind, fs.data) == 0,
+                            z3.Implies(z3.And(it >= 0, it < z3.Length(X)),
+                                       sp(X, it + 1, fs.kind, fs.data) == sp(X, it, fs.kind, fs.data) + su(PV.sval(X[it]), fs.kind, fs.data))))
+    SF["size_step"] = s_size_step
+
+    # ---- BEP 52 file tree of a directory: spec functions defined by the recursion over the sorted listing --------------------
+    def _sn_term(p, t):
+        fs = fs_of(p)
+        return p.engine.uf("sorted_listdir", S, fs.kind.sort(), PVSEQ)(t, fs.kind)
+
+    def sorted_listdir_value(p, t):
+        """sorted(os.listdir(d)): a function of the directory (the set of names, in ascending order)"""
+        h = HList(seq=_sn_term(p, t))
+        h.tag["elem"] = "str"
+        h.tag["listdir_of"] = t            # membership: a name is listed iff join(d, name) exists
+        X = h.seq
+        h.tag["elem_fact"] = lambda i, X=X: PV.is_PStr(X[i])
+        return p.alloc(h)
+    reg.sorted_listdir_value = sorted_listdir_value
+
+    def s_sorted_names(p, path):
+        return sorted_listdir_value(p, str_term(p, path))
+    SF["sorted_names"] = s_sorted_names
+
+    def s_file_root(p, content, amount):
+        """BEP 52 pieces root of a non-empty byte string for pieces of `amount` blocks (defined through file_root_def)"""
+        return VBytes(p.engine.uf("file_root", BYTES, I, BYTES)(p.bytes_term(content), p.as_int(amount)))
+    SF["file_root"] = s_file_root
+
+    def s_file_root_def(p, content, amount, L):
+        """ground instance of the definition: the root is the merkle root of ANY list L that consists of the piece roots of the
+        content followed by zero-piece roots up to the next power of two (that list is unique: L4)"""
+        fr = p.engine.uf("file_root", BYTES, I, BYTES)
+        ct, a = p.bytes_term(content), p.as_int(amount)
+        Ls = p.list_seq(p.deref(L)) if not isinstance(L, VBox) else PV.items(L.t)
+        PR = PV.items(SF["piece_roots"](p, VBytes(ct), VInt(a)).t)
+        Z = SF["mroot"](p, SF["zero_digests"](p, VInt(a)))
+        pad = PV.items(SF["repeat_digest"](p, Z, VInt(z3.Length(Ls) - z3.Length(PR))).t)
+        ok = z3.And(Ls == z3.Concat(PR, pad), p.engine.is_pow2(p, z3.Length(Ls)), z3.Length(PR) <= z3.Length(Ls),
+                    z3.Or(z3.Length(Ls) < 2 * z3.Length(PR), z3.Length(Ls) == 1))
+        return VBool(z3.Implies(ok, fr(ct, a) == SF["mroot"](p, VBox(PV.PList(Ls))).t))
+    SF["file_root_def"] = s_file_root_def
+
+    def _tree_ufs(p):
+        fs = fs_of(p)
+        return (p.engine.uf("tree_of", S, I, fs.kind.sort(), fs.data.sort(), PV),
+                p.engine.uf("tree_first", PVSEQ, I, S, I, fs.kind.sort(), fs.data.sort(), PV), fs)
+
+    def s_tree_of(p, path, amount):
+        """the BEP 52 file tree of what lies at path: {'': {length[, pieces root]}} for a file, {name: tree_of(child)} over the
+        ascending listing for a directory, {} for anything else"""
+        to, _, fs = _tree_ufs(p)
+        return VBox(to(str_term(p, path), p.as_int(amount), fs.kind, fs.data))
+    SF["tree_of"] = s_tree_of
+
+    def s_tree_first(p, N, i, path, amount):
+        _, tf, fs = _tree_ufs(p)
+        X, t, a = p.list_seq(p.deref(N)), str_term(p, path), p.as_int(amount)
+        p.assume(tf(X, z3.IntVal(0), t, a, fs.kind, fs.data) == PV.PDict(z3.Empty(KEYSEQ), z3.K(KEY, z3.BoolVal(False)), z3.K(KEY, PV.PNone)))
+        return VBox(tf(X, p.as_int(i), t, a, fs.kind, fs.data))
+    SF["tree_first"] = s_tree_first
+
+    def _pv_dict(p, items):
+        return p.dict_term(HDict(over=dict(items)))
+
+    def s_tree_unfold(p, path, amount):
+        """ground instance of the definition of tree_of at path"""
+        to, tf, fs = _tree_ufs(p)
+        t, a = str_term(p, path), p.as_int(amount)
+        k = kind_at(p, fs.kind, t)
+        data = z3.Select(fs.data, t)
+        n = z3.Length(data)
+        root = p.engine.uf("file_root", BYTES, I, BYTES)(data, a)
+        leaf0 = p.alloc(HDict(over={"length": VInt(n)}))
+        leaf1 = p.alloc(HDict(over={"length": VInt(n), "pieces root": VBytes(root)}))
+        d0 = _pv_dict(p, [("", leaf0)])
+        d1 = _pv_dict(p, [("", leaf1)])
+        N = _sn_term(p, t)
+        empty = PV.PDict(z3.Empty(KEYSEQ), z3.K(KEY, z3.BoolVal(False)), z3.K(KEY, PV.PNone))
+        T = to(t, a, fs.kind, fs.data)
+        return VBool(z3.And(z3.Implies(z3.And(k == FILE, n == 0), T == d0),
+                            z3.Implies(z3.And(k == FILE, n > 0), T == d1),
+                            z3.Implies(k == DIR, T == tf(N, z3.Length(N), t, a, fs.kind, fs.data)),
+                            z3.Implies(k == ABSENT, T == empty),
+                            tf(N, z3.IntVal(0), t, a, fs.kind, fs.data) == empty))
+    SF["tree_unfold"] = s_tree_unfold
+
+    def s_tree_step(p, N, i, path, amount):
+        """ground instance: the tree over the first i+1 names is the tree over the first i with names[i] -> tree_of(join(path, names[i]))
+        set in it (python dict assignment: an existing key keeps its place, a new one goes to the end)"""
+        to, tf, fs = _tree_ufs(p)
+        X, it, t, a = p.list_seq(p.deref(N)), p.as_int(i), str_term(p, path), p.as_int(amount)
+        Ti = tf(X, it, t, a, fs.kind, fs.data)
+        kt = KEY.KStr(PV.sval(X[it]))
+        child = p.engine.uf("pathjoin", S, S, S)(t, PV.sval(X[it]))
+        nxt = PV.PDict(p.keys_add(PV.dkeys(Ti), PV.dhas(Ti), kt), z3.Store(PV.dhas(Ti), kt, True),
+                       z3.Store(PV.dmap(Ti), kt, to(child, a, fs.kind, fs.data)))
+        return VBool(z3.Implies(z3.And(it >= 0, it < z3.Length(X), PV.is_PDict(Ti)), tf(X, it + 1, t, a, fs.kind, fs.data) == nxt))
+    SF["tree_step"] = s_tree_step
+
+    def _big(p):
+        fs = fs_of(p)
+        return (p.engine.uf("layered_under", S, BYTES, I, fs.kind.sort(), fs.data.sort(), B),
+                p.engine.uf("layered_under_first", PVSEQ, I, S, BYTES, I, fs.kind.sort(), fs.data.sort(), B), fs)
+
+    def s_layered_under(p, path, k, pl):
+        """k is the pieces root of a file larger than one piece at or below path (the keys piece layers must have)"""
+        bu, _, fs = _big(p)
+        return VBool(bu(str_term(p, path), p.bytes_term(k), p.as_int(pl), fs.kind, fs.data))
+    SF["layered_under"] = s_layered_under
+
+    def s_layered_under_first(p, N, i, path, k, pl):
+        _, bf, fs = _big(p)
+        X, t, kt, n = p.list_seq(p.deref(N)), str_term(p, path), p.bytes_term(k), p.as_int(pl)
+        p.assume(z3.Not(bf(X, z3.IntVal(0), t, kt, n, fs.kind, fs.data)))
+        return VBool(bf(X, p.as_int(i), t, kt, n, fs.kind, fs.data))
+    SF["layered_under_first"] = s_layered_under_first
+
+    def s_layered_unfold(p, path, k, pl):
+        bu, bf, fs = _big(p)
+        t, kt, n = str_term(p, path), p.bytes_term(k), p.as_int(pl)
+        kd = kind_at(p, fs.kind, t)
+        data = z3.Select(fs.data, t)
+        root = p.engine.uf("file_root", BYTES, I, BYTES)(data, n / 16384)
+        N = _sn_term(p, t)
+        v = bu(t, kt, n, fs.kind, fs.data)
+        return VBool(z3.And(z3.Implies(kd == FILE, v == z3.And(z3.Length(data) > n, kt == root)),
+                            z3.Implies(kd == DIR, v == bf(N, z3.Length(N), t, kt, n, fs.kind, fs.data)),
+                            z3.Implies(kd == ABSENT, z3.Not(v)),
+                            z3.Not(bf(N, z3.IntVal(0), t, kt, n, fs.kind, fs.data))))
+    SF["layered_unfold"] = s_layered_unfold
+
+    def s_layered_step(p, N, i, path, k, pl):
+        bu, bf, fs = _big(p)
+        X, it, t, kt, n = p.list_seq(p.deref(N)), p.as_int(i), str_term(p, path), p.bytes_term(k), p.as_int(pl)
+        child = p.engine.uf("pathjoin", S, S, S)(t, PV.sval(X[it]))
+        return VBool(z3.Implies(z3.And(it >= 0, it < z3.Length(X)),
+                                bf(X, it + 1, t, kt, n, fs.kind, fs.data) == z3.Or(bf(X, it, t, kt, n, fs.kind, fs.data),
+                                                                                  bu(child, kt, n, fs.kind, fs.data))))
+    SF["layered_step"] = s_layered_step
+
+    def s_basename(p, v):
+        return VStr(p.engine.uf("basename", S, S)(str_term(p, v)))
+    SF["basename"] = s_basename
+
+    def s_path_str(p, v):
+        return VStr(str_term(p, v))
+    SF["path_str"] = s_path_str
 
     def s_fs_is_temp(p, path):
         t = str_term(p, path)
